@@ -3,6 +3,7 @@
 // Usage: c01 <seed> <ncases> <nsteps> [only-case]
 #include <gatery/pch.h>
 #include "designgen.h"
+#include "netdump.h"
 #include <gatery/hlim/Circuit.h>
 #include <iostream>
 
@@ -18,6 +19,7 @@ struct Ctx {
 	std::vector<std::vector<std::string>> prev;
 };
 static Ctx g_ctx;
+static bool g_dumpNets = true;
 
 static void printTrace(std::ostream &o, const char *tag, const std::string &prefix, const std::vector<std::vector<std::string>> &tr) {
 	for (size_t c = 0; c < tr.size(); c++) {
@@ -45,6 +47,49 @@ static void boundary(const char *pass, hlim::Circuit &circuit) {
 	}
 }
 
+
+// Backbone tie: dump the netlist (cone of the output pins, registers cut) in the form Gatery.Nodes understands and the value of
+// every dumped node at every sample point, so that the driver can re-evaluate each node with the Lean node semantics.
+static void dumpNetAndValues(const char *tag, hlim::Circuit &circuit, const vh::Built &b, const vh::Stimulus &st, std::ostream &o) {
+	vh::Net net;
+	for (auto *p : b.outPins) net.visit(p->getDriver(0).node);
+	net.visitRegInputs();
+	if (net.order.size() > 600) { o << "netskip " << tag << " too-large\n"; return; }
+	std::map<hlim::Node_Pin*, int> pinIdx;
+	for (size_t i = 0; i < b.inPins.size(); i++) pinIdx[b.inPins[i]] = (int) i;
+	std::ostringstream body;
+	bool known = net.dump(body, pinIdx);
+	if (!known) { o << "netskip " << tag << " unmodelled-node-kind\n"; return; }
+	for (size_t i = 0; i < net.order.size(); i++) // a rewire range outside its input or a >= 64 bit shift amount is UB in the simulator: not produced by designgen, but do not evaluate such nets
+		if (auto *r = dynamic_cast<hlim::Node_Rewire*>(net.order[i]))
+			for (const auto &rg : r->getOp().ranges)
+				if (rg.source == hlim::Node_Rewire::OutputRange::INPUT && rg.subwidth > 0) {
+					auto d = r->getDriver(rg.inputIdx);
+					if (d.node && (rg.inputOffset > hlim::getOutputWidth(d) || rg.subwidth > hlim::getOutputWidth(d) - rg.inputOffset)) { o << "netskip " << tag << " unsafe-rewire\n"; return; }
+				}
+	o << "netbegin " << tag << '\n' << body.str();
+	o << "nouts";
+	for (auto *p : b.outPins) { auto d = p->getDriver(0); o << ' ' << (d.node ? net.index[d.node] : -1); }
+	o << "\nnetend " << tag << '\n';
+	sim::ReferenceSimulator sim(false);
+	sim.compileProgram(circuit);
+	sim.powerOn();
+	hlim::ClockRational period = hlim::ClockRational(1, 1) / b.clock->absoluteFrequency();
+	sim.advance(period / hlim::ClockRational(4, 1));
+	for (size_t c = 0; c < st.cycles.size(); c++) {
+		for (size_t i = 0; i < b.inPins.size(); i++)
+			sim.simProcSetInputPin(b.inPins[i], sim::convertToExtended(vh::bitsFromString(st.cycles[c][i])));
+		sim.reevaluate();
+		o << "nv " << tag << ' ' << c;
+		for (auto *n : net.order) {
+			if (n->getNumOutputPorts() == 0 || sim.outputOptimizedAway({.node = n, .port = 0})) { o << " ?"; continue; }
+			o << ' ' << vh::bitsToString(sim.getValueOfOutput({.node = n, .port = 0}));
+		}
+		o << '\n';
+		sim.advance(period);
+	}
+}
+
 static bool runOne(uint64_t k, const vh::Recipe &recipe, bool minimal, bool withUndef, uint64_t stimSeed, size_t ncycles, std::ostream &out) {
 	std::ostringstream o;
 	try {
@@ -61,6 +106,7 @@ static bool runOne(uint64_t k, const vh::Recipe &recipe, bool minimal, bool with
 		auto ref = vh::simulate(design.getCircuit(), b, st, &adef);
 		o << "adef " << adef << '\n';
 		printTrace(o, "ref", "", ref);
+		if (g_dumpNets) dumpNetAndValues("A", design.getCircuit(), b, st, o);
 		g_ctx = Ctx{&b, &st, &ref, &o, 0, ref};
 		hlim::verif_passBoundary = &boundary;
 		try {
@@ -76,6 +122,7 @@ static bool runOne(uint64_t k, const vh::Recipe &recipe, bool minimal, bool with
 		auto fin = vh::simulate(design.getCircuit(), b, st);
 		o << "nodes_after " << design.getCircuit().getNodes().size() << '\n';
 		printTrace(o, "fin", "", fin);
+		if (g_dumpNets) { try { dumpNetAndValues("B", design.getCircuit(), b, st, o); } catch (const std::exception &e) { o << "netskip B exception\n"; } }
 		o << "end\n";
 		out << o.str();
 		return true;
